@@ -5,7 +5,9 @@ import (
 	"go/ast"
 	"go/token"
 	"go/types"
+	"regexp"
 	"sort"
+	"strconv"
 	"strings"
 )
 
@@ -503,6 +505,28 @@ func init() {
 
 // Decided on the symbolic paths of py.StringEscape (pathtable.go): on every path with ascii == true, each alternative
 // of the per-character loop that writes the character itself carries a condition bounding it below 0x7F.
+// condPart: the text up to the bracket that closes the leading condition list (selectors a[*] nest inside it).
+func condPart(s string) string {
+	k := strings.Index(s, "[")
+	if k < 0 {
+		return s
+	}
+	depth := 0
+	for j := k; j < len(s); j++ {
+		if s[j] == '[' {
+			depth++
+		} else if s[j] == ']' {
+			depth--
+			if depth == 0 {
+				return s[:j]
+			}
+		}
+	}
+	return s
+}
+
+var asciiBound = regexp.MustCompile(`a\[\*\] <= (\d+)`)
+
 func runAsciiModeRaw(c *Ctx, r *Rep) {
 	rows, und, pos := pathTable(c, tableSpec{key: "py|StringEscape", show: []string{"*"}, prim: []string{"fmt.Fprintf", "strconv.IsPrint", "strings.ContainsRune"}})
 	if len(und) > 0 || len(rows) == 0 {
@@ -512,10 +536,7 @@ func runAsciiModeRaw(c *Ctx, r *Rep) {
 	r.analysed("py.StringEscape")
 	n := 0
 	for _, row := range rows {
-		hdr := row
-		if i := strings.Index(row, "]"); i >= 0 {
-			hdr = row[:i]
-		}
+		hdr := condPart(row)
 		if !strings.Contains(hdr, "ascii") || strings.Contains(hdr, "!(ascii)") {
 			continue
 		}
@@ -529,11 +550,13 @@ func runAsciiModeRaw(c *Ctx, r *Rep) {
 				continue
 			}
 			n++
-			cond := alt
-			if j := strings.Index(alt, "]"); j >= 0 {
-				cond = alt[:j]
+			cond := condPart(alt)
+			okBound := false
+			for _, m := range asciiBound.FindAllStringSubmatch(cond, -1) {
+				if k, err := strconv.Atoi(m[1]); err == nil && k < 0x7F {
+					okBound = true // canonical form of c < 0x7F: a[*] <= 126
+				}
 			}
-			okBound := strings.Contains(cond, "c < 0x7F") || strings.Contains(cond, "c < 0x20") || strings.Contains(cond, "c < 0x80")
 			r.check(okBound, "asciiraw|"+strings.TrimSpace(strings.TrimPrefix(cond, "LOOP(range s){")), pos,
 				"in ascii mode the character is written raw only below 0x7F",
 				"in ascii mode StringEscape writes a character raw under the condition "+strings.TrimSpace(cond)+"], which admits characters from 0x7F upwards: ascii('\u00e9') then contains a non-ASCII character instead of the escape \\xe9")
